@@ -105,9 +105,9 @@ def granular_type(rng, depth, enames, prev):
     return ("opt", granular_type(rng, depth - 1, enames, prev))
 
 
-def gen_batch(rng, nstructs=14, can=False, granular_share=0.0):
+def gen_batch(rng, nstructs=14, can=False, granular_share=0.0, big=False):
     d = gen.Desc()
-    d.enums = [("G0", [("GA", 0), ("GB", 200), ("GC", 255)])] + gen.gen_enums(rng, 2)
+    d.enums = [("G0", [("GA", 0), ("GB", 200), ("GC", 255)])] + gen.gen_enums(rng, 2, big=big)
     gprev = []
     enames = [e[0] for e in d.enums]
     extra = []
@@ -277,12 +277,17 @@ def run_core(rep, prop, tier, rng):
     nb = {"C03": 6, "C13": 6, "C18": 6, "C15": 3}[prop] if tier == "quick" else {"C15": 12}.get(prop, 48)
     nv = 8 if tier == "quick" else 20
     can = prop == "C18"
-    descs = [gen_batch(rng, can=can, granular_share=0.5 if prop in ("C13", "C18") else 0.0) for _ in range(nb)]
+    # enumerators of 2^31 and more only where the reflection record is not involved (it carries them in an i32: recorded
+    # finding enumerator-beyond-i32, shown on its witness by `beyond_i32_witness`)
+    descs = [gen_batch(rng, can=can, granular_share=0.5 if prop in ("C13", "C18") else 0.0, big=prop in ("C03", "C15"))
+             for _ in range(nb)]
+    if prop in ("C13", "C18") and known(prop, "enumerator-beyond-i32"):
+        beyond_i32_witness(rep, prop)
     if prop == "C03":
         exhaustive_types(rep)
     fixed_jobs = {}
     if prop in ("C03", "C13"):
-        wd, wjobs = widths_desc()
+        wd, wjobs = widths_desc(big=prop == "C03")
         fixed_jobs[len(descs)] = wjobs
         descs.append(wd)
     sanitize = os.environ.get("VERIF_CPP_SANITIZE", "1") != "0"
@@ -320,6 +325,38 @@ def run_core(rep, prop, tier, rng):
     return None
 
 
+def beyond_i32_witness(rep, prop):
+    """the recorded finding on its witness: the reflection-loaded codec and the static one disagree on an enum with an
+    enumerator >= 2^31 (nothing is printed once they agree)"""
+    text = 'version: "3"\n\nenum E {\n    A = 0,\n    B = 4294967301,\n}\nstruct S {\n    e @ 0: E,\n    t @ 1: u8,\n}\n'
+    if prop == "C18":
+        text += 'impl can for S {\n    id: 10,\n    bus: "b1",\n}\n'
+    g = run_cases("harness.cpp", "w_gen_cpp", [{"text": text}], timeout_s=300, chunk=1)[0]
+    if "ok" not in g:
+        return
+    dd, exe, out = build_cpp(g["ok"]["files"], g["ok"]["reflection"], sanitize=False)
+    try:
+        if exe is None:
+            return
+        val = json.dumps({"e": 4294967301, "t": 165})
+        dval = json.dumps({"e": "B", "t": 165})
+        if prop == "C18":
+            lines = ["CE s S " + val, "CE d S " + dval]
+        else:
+            lines = ["SE S " + val, "DE S " + dval]
+        try:
+            rc, o, err = talk(exe, os.path.join(dd, "schema.bin"), lines)
+        except subprocess.TimeoutExpired:
+            rc, o = 1, []
+        rep.hist("beyond_i32_witness", "differs" if rc != 0 or len(o) != 2 or o[0] != o[1] else "agrees")
+        if rc != 0 or len(o) != 2 or o[0] != o[1]:
+            rep.known_finding("an enum with an enumerator >= 2^31 reaches the reflection-loaded C++ codec through the i32 of the "
+                              "reflection record (C12 enumerator-beyond-i32): it encodes differently from the static codec "
+                              "(witness: enum E { A = 0, B = 4294967301 } struct S { e @0: E, t @1: u8 }, e = B)")
+    finally:
+        shutil.rmtree(dd, ignore_errors=True)
+
+
 def first_error(out):
     for line in (out or "").split("\n"):
         if "error" in line:
@@ -333,7 +370,7 @@ def talk(exe, refl_path, lines):
     return p.returncode, [l for l in p.stdout.split("\n") if l != ""], p.stderr
 
 
-def widths_desc():
+def widths_desc(big=False):
     """every integer width 1..64, signed and unsigned, with the boundary values of each: the sign extension of
     `GetWord`, the carrier cast and the bit loop of `PushWord` are exercised exhaustively over the width"""
     d = gen.Desc()
@@ -350,7 +387,9 @@ def widths_desc():
             py = {"s": sv, "u": uv, "t": tv}
             jobs.append((name, py, gen.to_model(d, ("struct", name), py)))
     # enums at every width boundary (largest value 0 included), each followed by a byte that shows any shift
-    for m in (0, 1, 2, 3, 4, 7, 8, 15, 16, 255, 256, 1000, 65535, 65536):
+    # ... and beyond 31 and 32 bits, where the JSON conversions and the carrier type of the enum class matter
+    for m in (0, 1, 2, 3, 4, 7, 8, 15, 16, 255, 256, 1000, 65535, 65536, 2 ** 30, 2 ** 31 - 2, 2 ** 31 - 1) + \
+            ((2 ** 31, 2 ** 32 - 1, 2 ** 32, 2 ** 32 + 5, 2 ** 40, 2 ** 62 + 1, 2 ** 63) if big else ()):
         vals = sorted({0, m, m // 2})
         d.enums.append((f"En{m}", [(f"K{m}_{v}", v) for v in vals]))
         name = f"WE{m}"
